@@ -44,6 +44,7 @@ type Contract struct {
 	Pos        string
 	File       string
 	Shared     string // name of the shared contract this was instantiated from
+	GhostSets  []*GhostSet // ghost variables updated when the function returns
 	Implements string // closures: the protocol this function literal implements
 	ImplInst   string // type instance for $T in that protocol
 }
@@ -52,6 +53,15 @@ type GhostDecl struct {
 	Name string // "wfail" or "List.view"
 	Type string
 	Field bool
+}
+
+// GhostSet is "ghostset name := expr": on return of the function the ghost variable takes the value of expr
+// (evaluated in the post-state, old() refers to the pre-state). It defines how ghost bookkeeping evolves; the
+// update is applied where the function is called by contract and when the function's own postconditions are checked.
+type GhostSet struct {
+	Var  string
+	Text string
+	Expr *CExpr
 }
 
 // TagDecl demands a struct tag on a field (decided syntactically): tag Type.Field key "value" [props]
@@ -107,7 +117,7 @@ var clauseKW = map[string]bool{
 	"requires": true, "ensures": true, "invariant": true, "modifies": true, "decreases": true,
 	"helper": true, "inline": true, "pure": true, "nowf": true, "use": true, "protocol": true,
 	"yields": true, "param": true, "contract": true, "applies": true, "opaque": true, "entry": true, "spec": true,
-	"terminal": true, "allocates": true, "pred": true, "trigger": true, "assumed": true, "partial": true, "stream": true, "resumes": true, "refines": true, "field": true, "implements": true, "tag": true, "logic": true, "axiom": true, "nilrecv": true, "verify": true,
+	"terminal": true, "allocates": true, "pred": true, "trigger": true, "assumed": true, "partial": true, "stream": true, "resumes": true, "refines": true, "field": true, "implements": true, "tag": true, "ghostset": true, "logic": true, "axiom": true, "nilrecv": true, "verify": true,
 }
 
 var labelRe = regexp.MustCompile(`^([A-Za-z_][\w']*)\s*(\[[A-Za-z0-9, ]*\])?\s*:`)
@@ -242,6 +252,20 @@ func (cs *ContractSet) ParseContractLines(file string, lines []string, poss []st
 				cs.Errors = append(cs.Errors, fmt.Sprintf("%s: bad field declaration %q", it.pos, it.rest))
 			}
 			cur = nil
+		case "ghostset":
+			if cur != nil {
+				parts := strings.SplitN(it.rest, ":=", 2)
+				if len(parts) != 2 {
+					cs.Errors = append(cs.Errors, fmt.Sprintf("%s: bad ghostset %q", it.pos, it.rest))
+					continue
+				}
+				e, err := ParseCExpr(strings.TrimSpace(parts[1]))
+				if err != nil {
+					cs.Errors = append(cs.Errors, fmt.Sprintf("%s: %v", it.pos, err))
+					continue
+				}
+				cur.GhostSets = append(cur.GhostSets, &GhostSet{Var: strings.TrimSpace(parts[0]), Text: strings.TrimSpace(parts[1]), Expr: e})
+			}
 		case "implements":
 			// implements protocol [instance]
 			if cur != nil {
